@@ -3,6 +3,53 @@ From Common Require Import Prelude.
 From C06 Require Import Model.
 Open Scope Z_scope.
 
+(* operations and flush never move the coroutine *)
+Lemma pc_upd_cur f s : pc (upd_cur f s) = pc s.
+Proof. unfold upd_cur. destruct (cur s); reflexivity. Qed.
+
+Lemma pc_set_bip c x s : pc (set_bip c x s) = pc s.
+Proof. unfold set_bip. destruct (negb (bip s =? 0) && (clamp c x =? 0)); reflexivity. Qed.
+
+Lemma pc_apply_op v c s o : pc (fst (apply_op v c s o)) = pc s.
+Proof.
+  destruct o; cbn [apply_op fst].
+  - destruct (drainh s && negb (n =? 0)); [apply pc_set_bip | reflexivity].
+  - apply pc_set_bip.
+  - reflexivity.
+  - reflexivity.
+  - destruct (ending s); reflexivity.
+  - destruct (gate v c s && allowed); reflexivity.
+  - apply pc_upd_cur.
+Qed.
+
+Lemma pc_flush s : pc (flush s) = pc s.
+Proof.
+  unfold flush. destruct (cur s); [destruct (players s ++ repeat (0%nat, 0%nat) (pending s))|]; reflexivity.
+Qed.
+
+Lemma pc_batch v c : forall ops s, pc (fst (batch v c s ops)) = pc s.
+Proof.
+  induction ops as [|o ops IH]; intro s; cbn [batch].
+  - apply pc_flush.
+  - pose proof (pc_apply_op v c s o) as E. destruct (apply_op v c s o) as [s1 o1]; cbn [fst] in E.
+    specialize (IH s1). destruct (batch v c s1 ops) as [s2 o2]; cbn [fst] in *. congruence.
+Qed.
+
+Lemma pc_batches v c : forall bs s, pc (fst (batches v c s bs)) = pc s.
+Proof.
+  induction bs as [|b bs IH]; intro s; cbn [batches]; [reflexivity|].
+  pose proof (pc_batch v c b s) as E. destruct (batch v c s b) as [s1 o1]; cbn [fst] in E.
+  specialize (IH s1). destruct (batches v c s1 bs) as [s2 o2]; cbn [fst] in *. congruence.
+Qed.
+
+(* the coroutine is only resumed from a wait when the awaited asyncio.Event is set *)
+Definition enabled (v : variant) (s : st) : Prop :=
+  match pc s with
+  | WaitBall => endev s = true
+  | WaitPlayer => wait_player_ready v s = true
+  | _ => True
+  end.
+
 (* ------------------------------------------------------------------------------------------- *)
 (* A generic "monitor" theorem: a monitor automaton over the output trace stays defined, and a relation between
    model state and monitor state is maintained, provided this holds for one operation, for flush, for the coroutine
@@ -29,7 +76,7 @@ Section Monitor.
   Hypothesis H_op : forall s m o, Rm s m ->
     exists m', mrun m (snd (apply_op v c s o)) = Some m' /\ Rm (fst (apply_op v c s o)) m'.
   Hypothesis H_flush : forall s m, Rm s m -> Rb (flush s) m.
-  Hypothesis H_adv : forall s m, Rb s m ->
+  Hypothesis H_adv : forall s m, Rb s m -> enabled v s ->
     exists m', mrun m (snd (advance v c s)) = Some m' /\ Rb (fst (advance v c s)) m'.
   Hypothesis H_idle : forall s m, Rb s m ->
     exists m', mstep m (Idle (bip s) (np s)) = Some m' /\ Rb s m'.
@@ -59,6 +106,7 @@ Section Monitor.
   Qed.
 
   Lemma mon_wait : forall s m ops (ready : st -> bool), Rb s m ->
+    (forall s1, pc s1 = pc s -> ready s1 = true -> enabled v s1) ->
     exists m',
       mrun m (snd (let (s1, o1) := batch v c s ops in
                    if ready s1 then let (s3, o3) := advance v c s1 in (s3, o1 ++ o3)
@@ -67,11 +115,12 @@ Section Monitor.
                if ready s1 then let (s3, o3) := advance v c s1 in (s3, o1 ++ o3)
                else (s1, o1 ++ [Idle (bip s1) (np s1)]))) m'.
   Proof.
-    intros s m ops ready H.
+    intros s m ops ready H Hen.
     destruct (mon_batch ops s m (H_open _ _ H)) as [m1 [E1 R1]].
+    pose proof (pc_batch v c ops s) as Epc.
     destruct (batch v c s ops) as [s1 o1]; cbn [fst snd] in *.
-    destruct (ready s1).
-    - destruct (H_adv s1 m1 R1) as [m3 [E3 R3]].
+    destruct (ready s1) eqn:Er.
+    - destruct (H_adv s1 m1 R1 (Hen s1 Epc Er)) as [m3 [E3 R3]].
       destruct (advance v c s1) as [s3 o3]; cbn [fst snd] in *.
       exists m3; split; [|exact R3]. rewrite mrun_app, E1. exact E3.
     - destruct (H_idle s1 m1 R1) as [m3 [E3 R3]].
@@ -81,16 +130,21 @@ Section Monitor.
   Lemma mon_step : forall s m i, Rb s m ->
     exists m', mrun m (snd (step_g v c s i)) = Some m' /\ Rb (fst (step_g v c s i)) m'.
   Proof.
-    intros s m i H. unfold step_g. destruct (pc s) as [k| | |].
+    intros s m i H. unfold step_g. destruct (pc s) as [k| | |] eqn:Epc.
     - destruct (mon_batch (ev_ops i) s m (H_open _ _ H)) as [m1 [E1 R1]].
+      pose proof (pc_batch v c (ev_ops i) s) as P1.
       destruct (batch v c s (ev_ops i)) as [s1 o1]; cbn [fst snd] in *.
       destruct (mon_batches (if is_queue k then holds i else []) s1 m1 R1) as [m2 [E2 R2]].
+      pose proof (pc_batches v c (if is_queue k then holds i else []) s1) as P2.
       destruct (batches v c s1 (if is_queue k then holds i else [])) as [s2 o2]; cbn [fst snd] in *.
-      destruct (H_adv s2 m2 R2) as [m3 [E3 R3]].
+      assert (En : enabled v s2) by (unfold enabled; rewrite P2, P1, Epc; exact I).
+      destruct (H_adv s2 m2 R2 En) as [m3 [E3 R3]].
       destruct (advance v c s2) as [s3 o3]; cbn [fst snd] in *.
       exists m3; split; [|exact R3]. rewrite mrun_app, E1, mrun_app, E2. exact E3.
     - apply (mon_wait s m (idle_ops i) endev H).
+      intros s1 P1 Er. unfold enabled. rewrite P1, Epc. exact Er.
     - apply (mon_wait s m (idle_ops i) (wait_player_ready v) H).
+      intros s1 P1 Er. unfold enabled. rewrite P1, Epc. exact Er.
     - exists m; split; [reflexivity | exact H].
   Qed.
 
@@ -208,30 +262,29 @@ Proof.
       + rewrite bip_upd_cur. exact H.
     - intros s m H. unfold Rbip, flush in *.
       destruct (cur s); [destruct (players s ++ repeat (0%nat, 0%nat) (pending s))|]; exact H.
-    - intros s m H. unfold advance.
-      assert (G : forall k s', Rbip c s' m ->
-                exists m', mrun (bstep c) m (snd (goto k s')) = Some m' /\ Rbip c (fst (goto k s')) m')
+    - intros s m H _. destruct m. unfold advance.
+      assert (G : forall k s', Rbip c s' tt ->
+                exists m', mrun (bstep c) tt (snd (goto k s')) = Some m' /\ Rbip c (fst (goto k s')) m')
         by (intros; apply goto_bip; assumption).
-      assert (Z0 : forall s', Rbip c (set_bipraw 0 s') m) by (intro; unfold Rbip; cbn; lia).
+      assert (Z0 : forall s', Rbip c (set_bipraw 0 s') tt) by (intro; unfold Rbip; cbn; lia).
       destruct (pc s) as [[]| | |]; try (apply G; exact H).
       + (* GSg *) destruct (0 <? np s)%nat; [apply G; exact H|].
         destruct (gate fixed c s && own_ok c).
         * cbn [fix_wait fixed]. destruct (true && ending (add_first_player s) || (0 <? np (add_first_player s))%nat);
-            [apply G; exact H | exists m; split; [reflexivity|exact H]].
+            [apply G; exact H | exists tt; split; [reflexivity|exact H]].
         * destruct (fix_wait fixed && ending s || (0 <? np s)%nat);
-            [apply G; exact H | exists m; split; [reflexivity|exact H]].
+            [apply G; exact H | exists tt; split; [reflexivity|exact H]].
       + (* GSd *) apply loop_head_bip; exact H.
-      + (* GEd *) exists m. cbn. split; [reflexivity | exact H].
+      + (* GEd *) exists tt. cbn. split; [reflexivity | exact H].
       + (* PTSg *) apply G. unfold Rbip in *. cbn. rewrite bip_upd_cur. exact H.
-      + (* PTSd *) unfold run_ball. apply G. exact H.
       + (* PTEd *) unfold after_turn.
         destruct (slam (set_tactive false s) || _); apply loop_head_bip; unfold Rbip, rotate in *; cbn; exact H.
       + (* BSg *) apply G. unfold Rbip. rewrite bip_set_bip. apply clamp_bounds; exact Hn.
-      + (* BSd *) unfold await_end. destruct (endev s); [unfold end_ball; apply G; apply Z0 | exists m; split; [reflexivity|exact H]].
+      + (* BSd *) unfold await_end. destruct (endev s); [unfold end_ball; apply G; apply Z0 | exists tt; split; [reflexivity|exact H]].
       + (* BEd *) destruct ((0 <? pextra s)%nat && negb (slam s)); [|apply G; exact H].
         unfold run_ball. apply G. unfold Rbip in *. cbn. rewrite bip_upd_cur. exact H.
-      + (* WaitBall *) unfold await_end. destruct (endev s); [unfold end_ball; apply G; apply Z0 | exists m; split; [reflexivity|exact H]].
-      + (* Done *) exists m; split; [reflexivity|exact H].
+      + (* WaitBall *) unfold await_end. destruct (endev s); [unfold end_ball; apply G; apply Z0 | exists tt; split; [reflexivity|exact H]].
+      + (* Done *) exists tt; split; [reflexivity|exact H].
     - intros s m H. exists tt. split; [|exact H]. unfold bstep, bp_okb. unfold Rbip in H. destruct H as [H1 H2].
       apply Z.leb_le in H1. apply Z.leb_le in H2. rewrite H1, H2. reflexivity.
     - unfold Rbip, init; cbn; lia. }
@@ -241,3 +294,484 @@ Proof.
     + eapply brun_forall; exact E.
   - exact R.
 Qed.
+
+(* ------------------------------------------------------------------------------------------- *)
+(* list facts for the per-player table *)
+Lemma upd_length {A} (f : A -> A) : forall l i, length (upd i f l) = length l.
+Proof. induction l as [|x l IH]; intros [|i]; cbn; auto. Qed.
+
+Lemma nth_upd_same {A} (f : A -> A) d : forall l i, (i < length l)%nat -> nth i (upd i f l) d = f (nth i l d).
+Proof.
+  induction l as [|x l IH]; intros [|i] H; cbn in *; try lia; [reflexivity|]. apply IH. lia.
+Qed.
+
+Lemma nth_upd_other {A} (f : A -> A) d : forall l i j, i <> j -> nth j (upd i f l) d = nth j l d.
+Proof.
+  induction l as [|x l IH]; intros [|i] [|j] H; cbn; try reflexivity; try congruence. apply IH. congruence.
+Qed.
+
+Lemma nth_app_repeat {A} (d : A) : forall l k i, nth i (l ++ repeat d k) d = nth i l d.
+Proof.
+  intros l k i. destruct (Nat.lt_ge_cases i (length l)) as [H|H].
+  - apply app_nth1; exact H.
+  - rewrite app_nth2 by exact H. rewrite (nth_overflow l d H).
+    destruct (Nat.lt_ge_cases (i - length l) k) as [H2|H2].
+    + apply nth_repeat.
+    + apply nth_overflow. rewrite repeat_length. exact H2.
+Qed.
+
+Lemma set_bip_form c x s : exists b e, set_bip c x s = set_endev e (set_bipraw b s).
+Proof.
+  unfold set_bip. destruct (negb (bip s =? 0) && (clamp c x =? 0)); eexists; eexists; reflexivity.
+Qed.
+
+(* what an operation may change: only balls in play, flags, extra-ball counts and the pending-add counter *)
+Definition Keep (s s' : st) : Prop :=
+  pc s' = pc s /\ cur s' = cur s /\ pball s' = pball s /\ xb s' = xb s /\ np s' = np s /\
+  active s' = active s /\ tactive s' = tactive s /\ (ending s = true -> ending s' = true) /\
+  map fst (players s') = map fst (players s).
+
+Lemma Keep_refl s : Keep s s.
+Proof. unfold Keep; intuition. Qed.
+
+Lemma map_fst_upd_snd (f : nat * nat -> nat * nat) (Hf : forall be, fst (f be) = fst be) :
+  forall l i, map fst (upd i f l) = map fst l.
+Proof. induction l as [|x l IH]; intros [|i]; cbn; auto; [rewrite Hf|rewrite IH]; reflexivity. Qed.
+
+Lemma Keep_upd_snd (f : nat * nat -> nat * nat) (Hf : forall be, fst (f be) = fst be) s :
+  Keep s (upd_cur f s).
+Proof.
+  unfold Keep, upd_cur, pball, pl, np. destruct (cur s) as [|i] eqn:E; [rewrite ?E; repeat split; auto|].
+  simpl. rewrite Nat.sub_0_r, upd_length, (map_fst_upd_snd f Hf).
+  repeat split; auto. rewrite E. simpl. rewrite Nat.sub_0_r.
+  destruct (Nat.lt_ge_cases i (length (players s))) as [H|H].
+  - rewrite nth_upd_same by exact H. apply Hf.
+  - rewrite !nth_overflow; [reflexivity| exact H | rewrite upd_length; exact H].
+Qed.
+
+Lemma Keep_apply_op v c s o : Keep s (fst (apply_op v c s o)).
+Proof.
+  destruct o; cbn [apply_op fst].
+  - destruct (drainh s && negb (n =? 0)); [|apply Keep_refl].
+    destruct (set_bip_form c (bip s - n) s) as [b [e ->]]. unfold Keep; cbn; intuition.
+  - destruct (set_bip_form c (bip s + d) s) as [b [e ->]]. unfold Keep; cbn; intuition.
+  - unfold Keep; cbn; intuition.
+  - unfold Keep; cbn; intuition.
+  - destruct (ending s); unfold Keep; cbn; intuition.
+  - destruct (gate v c s && allowed); [unfold Keep; cbn; intuition | apply Keep_refl].
+  - apply Keep_upd_snd. reflexivity.
+Qed.
+
+(* ------------------------------------------------------------------------------------------- *)
+(* C. the lifecycle grammar, as a recogniser of prefixes.
+     game  ::= game_will_start game_starting game_started turn* game_will_end game_ending game_ended Fin
+     turn  ::= player_turn_will_start(p,b-1) player_turn_starting(p,b-1) player_turn_started(p,b)
+               ball(p,b,extra=false) ball(p,b,extra=true)*
+               player_turn_will_end(p,b) player_turn_ending(p,b) player_turn_ended(p,b)
+     ball  ::= ball_will_start ball_starting ball_started ball_will_end ball_ending ball_ended   (all with p,b)
+   Idle observations and Award markers are not lifecycle events and are skipped. *)
+Inductive gst :=
+| G0 | G1 | G2 | GL
+| T1 (p b : nat) | T2 (p b : nat)
+| B0 (p b : nat) | B1 (p b : nat) (x : bool) | B2 (p b : nat) (x : bool) | B3 (p b : nat) | B4 (p b : nat) | B5 (p b : nat)
+| TA (p b : nat) | T4 (p b : nat) | T5 (p b : nat)
+| E1 | E2 | E3 | EF.
+
+Definition same (p b p' b' : nat) : bool := (p =? p')%nat && (b =? b')%nat.
+
+Definition gstep (g : gst) (o : out) : option gst :=
+  match o with
+  | Idle _ _ => Some g
+  | Award _ => Some g
+  | Fin => match g with E3 => Some EF | _ => None end
+  | Ev k p b x _ _ =>
+      match g, k with
+      | G0, GWS => Some G1
+      | G1, GSg => Some G2
+      | G2, GSd => Some GL
+      | GL, GWE => Some E1
+      | GL, PTWS => if (1 <=? p)%nat then Some (T1 p (S b)) else None
+      | T1 p' b', PTSg => if same p (S b) p' b' then Some (T2 p' b') else None
+      | T2 p' b', PTSd => if same p b p' b' then Some (B0 p' b') else None
+      | B0 p' b', BWS => if same p b p' b' && negb x then Some (B1 p' b' false) else None
+      | B1 p' b' x', BSg => if same p b p' b' && Bool.eqb x x' then Some (B2 p' b' x') else None
+      | B2 p' b' x', BSd => if same p b p' b' && Bool.eqb x x' then Some (B3 p' b') else None
+      | B3 p' b', BWE => if same p b p' b' then Some (B4 p' b') else None
+      | B4 p' b', BEg => if same p b p' b' then Some (B5 p' b') else None
+      | B5 p' b', BEd => if same p b p' b' then Some (TA p' b') else None
+      | TA p' b', BWS => if same p b p' b' && x then Some (B1 p' b' true) else None
+      | TA p' b', PTWE => if same p b p' b' then Some (T4 p' b') else None
+      | T4 p' b', PTEg => if same p b p' b' then Some (T5 p' b') else None
+      | T5 p' b', PTEd => if same p b p' b' then Some GL else None
+      | E1, GEg => Some E2
+      | E2, GEd => Some E3
+      | _, _ => None
+      end
+  end.
+
+Definition in_grammar (tr : list out) : Prop := exists g, mrun gstep G0 tr = Some g.
+
+Definition g_of (s : st) : gst :=
+  let p := cur s in let b := pball s in
+  match pc s with
+  | AtEv GWS => G1 | AtEv GSg => G2 | WaitPlayer => G2 | AtEv GSd => GL
+  | AtEv PTWS => T1 p (S b) | AtEv PTSg => T2 p (S b) | AtEv PTSd => B0 p b
+  | AtEv BWS => B1 p b (xb s) | AtEv BSg => B2 p b (xb s) | AtEv BSd => B3 p b | WaitBall => B3 p b
+  | AtEv BWE => B4 p b | AtEv BEg => B5 p b | AtEv BEd => TA p b
+  | AtEv PTWE => T4 p b | AtEv PTEg => T5 p b | AtEv PTEd => GL
+  | AtEv GWE => E1 | AtEv GEg => E2 | AtEv GEd => E3 | Done => EF
+  end.
+
+Definition in_turn (p : pc_t) : bool :=
+  match p with
+  | AtEv (PTWS | PTSg | PTSd | PTWE | PTEg | PTEd | BWS | BSg | BSd | BWE | BEg | BEd) | WaitBall => true
+  | _ => false
+  end.
+Definition is_done (p : pc_t) : bool := match p with Done => true | _ => false end.
+
+Definition Inv (s : st) : Prop :=
+  (cur s <= np s)%nat /\
+  (in_turn (pc s) = true -> (1 <= cur s)%nat) /\
+  (pc s = AtEv GSd -> ending s = true \/ (1 <= np s)%nat) /\
+  active s = negb (is_done (pc s)).
+
+Definition Rg (s : st) (g : gst) : Prop := g = g_of s /\ Inv s.
+
+Lemma g_of_Keep s s' : Keep s s' -> g_of s' = g_of s.
+Proof. intros (H1 & H2 & H3 & H4 & _). unfold g_of. rewrite H1, H2, H3, H4. reflexivity. Qed.
+
+Lemma Inv_Keep s s' : Keep s s' -> Inv s -> Inv s'.
+Proof.
+  intros (H1 & H2 & H3 & H4 & H5 & H6 & H7 & H8 & _) (I1 & I2 & I3 & I4). unfold Inv.
+  rewrite H1, H2, H5, H6. repeat split; auto.
+  intro E. destruct (I3 E) as [A|A]; [left; apply H8; exact A | right; exact A].
+Qed.
+
+Lemma pball_flush s : (1 <= cur s)%nat -> pball (flush s) = pball s /\ cur (flush s) = cur s.
+Proof.
+  intro H. unfold flush, pball, pl. destruct (cur s) as [|i] eqn:E; [lia|]. cbn. rewrite E. cbn.
+  split; [|reflexivity]. rewrite Nat.sub_0_r. rewrite nth_app_repeat. reflexivity.
+Qed.
+
+Lemma players_flush s : players (flush s) = players s ++ repeat (0%nat, 0%nat) (pending s).
+Proof.
+  unfold flush. destruct (cur s); [destruct (players s ++ repeat (0%nat, 0%nat) (pending s))|]; reflexivity.
+Qed.
+
+Lemma np_flush s : np (flush s) = (np s + pending s)%nat.
+Proof. unfold np. rewrite players_flush, app_length, repeat_length. reflexivity. Qed.
+
+Lemma cur_flush0 s : cur s = 0%nat -> (cur (flush s) <= np (flush s))%nat /\ (cur (flush s) <= 1)%nat.
+Proof.
+  intro H. unfold flush, np. rewrite H.
+  destruct (players s ++ repeat (0%nat, 0%nat) (pending s)) eqn:E; cbn; rewrite ?E; cbn; rewrite ?H; lia.
+Qed.
+
+Lemma misc_flush s : xb (flush s) = xb s /\ active (flush s) = active s /\ ending (flush s) = ending s /\
+                     tactive (flush s) = tactive s.
+Proof.
+  unfold flush. destruct (cur s); [destruct (players s ++ repeat (0%nat, 0%nat) (pending s))|]; cbn; auto.
+Qed.
+
+Lemma Rg_flush s g : Rg s g -> Rg (flush s) g.
+Proof.
+  intros [-> (I1 & I2 & I3 & I4)]. destruct (misc_flush s) as (X1 & X2 & X3 & X4).
+  pose proof (pc_flush s) as P. pose proof (np_flush s) as N.
+  destruct (Nat.eq_dec (cur s) 0) as [Z|NZ].
+  - destruct (cur_flush0 s Z) as [C1 C2]. split.
+    + unfold g_of. rewrite P, X1. destruct (pc s) as [[]| | |]; try reflexivity;
+        (exfalso; cbn in I2; specialize (I2 eq_refl); lia).
+    + unfold Inv. rewrite P, X2, X3.
+      repeat split; auto; try lia; try (intro T; specialize (I2 T); lia);
+        try (intro E; destruct (I3 E); [left; assumption | right; lia]).
+  - destruct (pball_flush s ltac:(lia)) as [B C]. split.
+    + unfold g_of. rewrite P, X1, B, C. reflexivity.
+    + unfold Inv. rewrite P, X2, X3, C.
+      repeat split; auto; try lia; try (intro E; destruct (I3 E); [left; assumption | right; lia]).
+Qed.
+
+Lemma same_refl p b : same p b p b = true.
+Proof. unfold same. rewrite !Nat.eqb_refl. reflexivity. Qed.
+
+Lemma goto_g k s g g' :
+  gstep g (ev_of k s) = Some g' -> g' = g_of (set_pc (AtEv k) s) -> Inv (set_pc (AtEv k) s) ->
+  exists g'', mrun gstep g (snd (goto k s)) = Some g'' /\ Rg (fst (goto k s)) g''.
+Proof.
+  intros H1 H2 H3. exists g'. cbn [goto fst snd mrun]. rewrite H1. split; [reflexivity | split; assumption].
+Qed.
+
+(* the current player's ball counter after "self.player.ball += 1" *)
+Lemma inc_facts s : (1 <= cur s <= np s)%nat ->
+  let s' := upd_cur (fun be => (S (fst be), snd be)) s in
+  cur s' = cur s /\ pball s' = S (pball s) /\ np s' = np s /\ pc s' = pc s /\ xb s' = xb s /\
+  active s' = active s /\ ending s' = ending s /\ slam s' = slam s.
+Proof.
+  intros [H1 H2]. unfold upd_cur, pball, pl, np in *. destruct (cur s) as [|i] eqn:E; [lia|].
+  simpl. rewrite E. simpl. rewrite Nat.sub_0_r, upd_length. repeat split; auto.
+  rewrite nth_upd_same by lia. reflexivity.
+Qed.
+
+Lemma dec_facts s :
+  let s' := upd_cur (fun be => (fst be, pred (snd be))) s in
+  cur s' = cur s /\ pball s' = pball s /\ np s' = np s /\ pc s' = pc s /\
+  active s' = active s /\ ending s' = ending s.
+Proof.
+  destruct (Keep_upd_snd (fun be => (fst be, pred (snd be))) (fun _ => eq_refl) s)
+    as (K1 & K2 & K3 & K4 & K5 & K6 & K7 & K8 & K9).
+  cbv zeta. repeat split; auto. unfold upd_cur. destruct (cur s); reflexivity.
+Qed.
+
+Lemma rotate_facts s : (1 <= np s)%nat ->
+  (1 <= cur (rotate s) <= np (rotate s))%nat /\ np (rotate s) = np s /\ pc (rotate s) = pc s /\
+  active (rotate s) = active s /\ ending (rotate s) = ending s.
+Proof.
+  intro H. unfold rotate, np in *. simpl.
+  destruct (negb (cur s =? 0)%nat && (cur s <? length (players s))%nat) eqn:E.
+  - apply andb_true_iff in E as [_ E]. apply Nat.ltb_lt in E. repeat split; auto; lia.
+  - repeat split; auto; lia.
+Qed.
+
+Lemma Inv_set_pc k s :
+  (cur s <= np s)%nat -> (in_turn (AtEv k) = true -> (1 <= cur s)%nat) ->
+  (k = GSd -> ending s = true \/ (1 <= np s)%nat) -> active s = true -> Inv (set_pc (AtEv k) s).
+Proof.
+  intros H1 H2 H3 H4. unfold Inv. simpl. repeat split; auto. intro E. apply H3. congruence.
+Qed.
+
+Ltac inv_simple := apply Inv_set_pc; simpl; auto; try discriminate; try lia.
+
+Lemma loop_head_g s : (cur s <= np s)%nat -> active s = true -> (ending s = true \/ (1 <= np s)%nat) ->
+  exists g', mrun gstep GL (snd (loop_head s)) = Some g' /\ Rg (fst (loop_head s)) g'.
+Proof.
+  intros I1 I4 HE. unfold loop_head. destruct (ending s) eqn:En.
+  - eapply goto_g; [reflexivity | reflexivity | inv_simple].
+  - destruct HE as [HE|HE]; [discriminate|].
+    destruct (cur s =? 0)%nat eqn:C0.
+    + destruct (rotate_facts s HE) as ([R1 R2] & R3 & R4 & R5 & R6).
+      eapply goto_g.
+      * unfold ev_of. cbn [gstep]. apply Nat.leb_le in R1. rewrite R1. reflexivity.
+      * reflexivity.
+      * apply Inv_set_pc; try discriminate; try lia. congruence.
+    + apply Nat.eqb_neq in C0. eapply goto_g.
+      * unfold ev_of. cbn [gstep]. assert (L : (1 <=? cur s)%nat = true) by (apply Nat.leb_le; lia).
+        rewrite L. reflexivity.
+      * reflexivity.
+      * apply Inv_set_pc; try discriminate; try lia. assumption.
+Qed.
+
+Ltac norm_pball :=
+  repeat (first
+    [ progress change (pball (set_pc ?a ?x)) with (pball x)
+    | progress change (pball (set_tactive ?a ?x)) with (pball x)
+    | progress change (pball (set_xb ?a ?x)) with (pball x)
+    | progress change (pball (set_endev ?a ?x)) with (pball x)
+    | progress change (cur (set_pc ?a ?x)) with (cur x)
+    | progress change (cur (set_tactive ?a ?x)) with (cur x)
+    | progress change (cur (set_xb ?a ?x)) with (cur x)
+    | progress change (cur (set_endev ?a ?x)) with (cur x) ]).
+
+Lemma Rg_adv c s g : Rg s g -> enabled fixed s ->
+  exists g', mrun gstep g (snd (advance fixed c s)) = Some g' /\ Rg (fst (advance fixed c s)) g'.
+Proof.
+  intros [-> HI] En. pose proof HI as (I1 & I2 & I3 & I4).
+  unfold advance, g_of. unfold enabled in En.
+  destruct (pc s) as [[]| | |] eqn:Epc; cbn [in_turn is_done negb] in *;
+    try specialize (I2 eq_refl).
+  - (* GWS *) eapply goto_g; [reflexivity|reflexivity|inv_simple].
+  - (* GSg *)
+    destruct (0 <? np s)%nat eqn:N0.
+    + apply Nat.ltb_lt in N0. eapply goto_g; [reflexivity|reflexivity|inv_simple].
+    + destruct (gate fixed c s && own_ok c).
+      * replace (fix_wait fixed && ending (add_first_player s) || (0 <? np (add_first_player s))%nat) with true
+          by (unfold np; simpl; rewrite orb_true_r; reflexivity).
+        eapply goto_g; [reflexivity|reflexivity|].
+        apply Inv_set_pc; simpl; auto; try discriminate.
+      * destruct (fix_wait fixed && ending s || (0 <? np s)%nat) eqn:W.
+        -- eapply goto_g; [reflexivity|reflexivity|].
+           apply Inv_set_pc; auto; try discriminate. intros _.
+           rewrite N0 in W. simpl in W. rewrite orb_false_r in W. left; exact W.
+        -- exists G2. split; [reflexivity|]. split; [reflexivity|].
+           unfold Inv; simpl. repeat split; auto; discriminate.
+  - (* GSd *) apply loop_head_g; auto.
+  - (* GWE *) eapply goto_g; [reflexivity|reflexivity|inv_simple].
+  - (* GEg *) eapply goto_g; [reflexivity|reflexivity|inv_simple].
+  - (* GEd *) exists EF. split; [reflexivity|]. split; [reflexivity|].
+    unfold Inv; simpl. repeat split; auto; discriminate.
+  - (* PTWS *) eapply goto_g; [unfold ev_of; cbn [gstep]; rewrite same_refl; reflexivity | reflexivity | inv_simple].
+  - (* PTSg *)
+    destruct (inc_facts s (conj I2 I1)) as (F1 & F2 & F3 & F4 & F5 & F6 & F7 & F8).
+    eapply goto_g.
+    + unfold ev_of. cbn -[pball upd_cur np]. norm_pball. rewrite ?F1, ?F2, same_refl. reflexivity.
+    + unfold g_of. cbn -[pball upd_cur np]. norm_pball. rewrite ?F1, ?F2. reflexivity.
+    + apply Inv_set_pc; try discriminate.
+      * change (cur (set_tactive true ?x)) with (cur x). change (np (set_tactive true ?x)) with (np x). lia.
+      * intros _. change (cur (set_tactive true ?x)) with (cur x). lia.
+      * change (active (set_tactive true ?x)) with (active x). congruence.
+  - (* PTSd *) unfold run_ball. eapply goto_g.
+    + unfold ev_of. simpl. rewrite same_refl. reflexivity.
+    + reflexivity.
+    + inv_simple.
+  - (* PTWE *) eapply goto_g; [unfold ev_of; cbn [gstep]; rewrite same_refl; reflexivity | reflexivity | inv_simple].
+  - (* PTEg *) eapply goto_g; [unfold ev_of; cbn [gstep]; rewrite same_refl; reflexivity | reflexivity | inv_simple].
+  - (* PTEd *) unfold after_turn.
+    assert (NP : (1 <= np s)%nat) by lia.
+    destruct (slam (set_tactive false s) || _).
+    + apply loop_head_g; simpl; auto.
+    + destruct (rotate_facts (set_tactive false s) NP) as ([R1 R2] & R3 & R4 & R5 & R6).
+      apply loop_head_g; [lia | rewrite R5; exact I4 | right; rewrite R3; exact NP].
+  - (* BWS *) eapply goto_g; [unfold ev_of; cbn [gstep]; rewrite same_refl, eqb_reflx; reflexivity | reflexivity | inv_simple].
+  - (* BSg *)
+    destruct (set_bip_form c 1 (set_drainh true s)) as [b [e ->]].
+    eapply goto_g; [unfold ev_of; simpl; rewrite same_refl, eqb_reflx; reflexivity | reflexivity | inv_simple].
+  - (* BSd *) unfold await_end. destruct (endev s).
+    + unfold end_ball. eapply goto_g; [unfold ev_of; simpl; rewrite same_refl; reflexivity | reflexivity | inv_simple].
+    + exists (B3 (cur s) (pball s)). split; [reflexivity|]. split; [reflexivity|].
+      unfold Inv; simpl. repeat split; auto; discriminate.
+  - (* BWE *) eapply goto_g; [unfold ev_of; cbn [gstep]; rewrite same_refl; reflexivity | reflexivity | inv_simple].
+  - (* BEg *) eapply goto_g; [unfold ev_of; cbn [gstep]; rewrite same_refl; reflexivity | reflexivity | inv_simple].
+  - (* BEd *) destruct ((0 <? pextra s)%nat && negb (slam s)).
+    + destruct (dec_facts s) as (F1 & F2 & F3 & F4 & F5 & F6). unfold run_ball.
+      eapply goto_g.
+      * unfold ev_of. cbn -[pball upd_cur np].
+        norm_pball. rewrite ?F1, ?F2, same_refl. reflexivity.
+      * unfold g_of. cbn -[pball upd_cur np].
+        norm_pball. rewrite ?F1, ?F2. reflexivity.
+      * apply Inv_set_pc; try discriminate.
+        -- change (cur (set_xb true (set_endev false ?x))) with (cur x).
+           change (np (set_xb true (set_endev false ?x))) with (np x). lia.
+        -- intros _. change (cur (set_xb true (set_endev false ?x))) with (cur x). lia.
+        -- change (active (set_xb true (set_endev false ?x))) with (active x). congruence.
+    + eapply goto_g; [unfold ev_of; cbn [gstep]; rewrite same_refl; reflexivity | reflexivity | inv_simple].
+  - (* WaitBall *) unfold await_end. rewrite En.
+    unfold end_ball. eapply goto_g; [unfold ev_of; simpl; rewrite same_refl; reflexivity | reflexivity | inv_simple].
+  - (* WaitPlayer *) eapply goto_g; [reflexivity|reflexivity|].
+    apply Inv_set_pc; auto; try discriminate.
+    intros _. unfold wait_player_ready in En. simpl in En.
+    apply orb_true_iff in En as [En|En]; [left; exact En | right; apply Nat.ltb_lt in En; exact En].
+  - (* Done *) exists EF. split; [reflexivity|]. unfold Rg, g_of. cbn [fst]. rewrite Epc. split; [reflexivity | exact HI].
+Qed.
+
+Lemma Rg_init : Rg init G1.
+Proof. split; [reflexivity|]. unfold Inv, init, np; simpl. repeat split; auto; discriminate. Qed.
+
+Lemma grammar_steps c ins :
+  exists g, mrun gstep G1 (snd (steps c init ins)) = Some g /\ Rg (fst (steps c init ins)) g.
+Proof.
+  unfold steps. apply (mon_steps gstep fixed c Rg Rg).
+  - auto.
+  - intros s g o [-> HI]. pose proof (Keep_apply_op fixed c s o) as K.
+    exists (g_of s). split.
+    + destruct o; reflexivity.
+    + split; [symmetry; apply g_of_Keep; exact K | eapply Inv_Keep; eassumption].
+  - apply Rg_flush.
+  - intros; apply Rg_adv; assumption.
+  - intros s g H. exists g. split; [reflexivity | exact H].
+  - apply Rg_init.
+Qed.
+
+Lemma lifecycle_trace_in_grammar_l : forall c ins, in_grammar (trace c ins).
+Proof.
+  intros c ins. destruct (grammar_steps c ins) as [g [E _]].
+  exists g. unfold trace, out0. rewrite mrun_app. cbn. exact E.
+Qed.
+
+(* B. the end of the coroutine, machine.game, and the Fin marker coincide; nothing happens afterwards *)
+Lemma mrun_EF : forall outs g', mrun gstep EF outs = Some g' -> g' = EF.
+Proof.
+  induction outs as [|o outs IH]; intros g' H; cbn in H; [congruence|].
+  destruct o; cbn in H; try discriminate; apply IH; exact H.
+Qed.
+
+Lemma gstep_ev_notEF g k p b x bp n g1 : gstep g (Ev k p b x bp n) = Some g1 -> g <> EF /\ g1 <> EF.
+Proof.
+  intro H. destruct g; destruct k; cbn in H; try discriminate;
+    repeat match type of H with context [if ?c then _ else _] => destruct c end;
+    try discriminate; inversion H; split; discriminate.
+Qed.
+
+Lemma fin_EF : forall outs g g', mrun gstep g outs = Some g' -> (g' = EF <-> g = EF \/ In Fin outs).
+Proof.
+  induction outs as [|o outs IH]; intros g g' H; cbn in H.
+  - inversion H; subst. cbn. tauto.
+  - destruct (gstep g o) as [g1|] eqn:E; [|discriminate].
+    specialize (IH g1 g' H). destruct o.
+    + apply gstep_ev_notEF in E as [E1 E2]. rewrite IH. cbn. split.
+      * intros [A|A]; [contradiction | right; right; exact A].
+      * intros [A|[A|A]]; [contradiction | discriminate | right; exact A].
+    + cbn in E. inversion E; subst. rewrite IH. cbn. split.
+      * intros [A|A]; [left; exact A | right; right; exact A].
+      * intros [A|[A|A]]; [left; exact A | discriminate | right; exact A].
+    + cbn in E. inversion E; subst. rewrite IH. cbn. split.
+      * intros [A|A]; [left; exact A | right; right; exact A].
+      * intros [A|[A|A]]; [left; exact A | discriminate | right; exact A].
+    + destruct g; cbn in E; try discriminate. inversion E; subst.
+      rewrite (mrun_EF _ _ H). cbn. split; [intros _; right; left; reflexivity | reflexivity].
+Qed.
+
+Lemma ended_implies_no_game_l : forall c ins,
+  (pc (final c ins) = Done <-> active (final c ins) = false) /\
+  (In Fin (trace c ins) <-> pc (final c ins) = Done) /\
+  (pc (final c ins) = Done ->
+   forall more, trace c (ins ++ more) = trace c ins /\ final c (ins ++ more) = final c ins).
+Proof.
+  intros c ins. destruct (grammar_steps c ins) as [g [E [Hg (I1 & I2 & I3 & I4)]]].
+  fold (final c ins) in *. split; [|split].
+  - rewrite I4. destruct (pc (final c ins)); cbn; split; intro; congruence.
+  - pose proof (fin_EF _ _ _ E) as F. unfold trace, out0. cbn [app In]. split.
+    + intros [A|A]; [discriminate|]. assert (X : g = EF) by (apply F; right; exact A).
+      rewrite Hg in X. unfold g_of in X. destruct (pc (final c ins)) as [[]| | |]; try discriminate; reflexivity.
+    + intro D. right. assert (X : g = EF) by (rewrite Hg; unfold g_of; rewrite D; reflexivity).
+      apply F in X as [X|X]; [discriminate | exact X].
+  - intros D more. unfold trace, final, steps in *. rewrite steps_app.
+    destruct (steps_g fixed c init ins) as [s1 o1] eqn:E1. cbn [fst] in D.
+    rewrite (steps_done fixed c more s1 D). cbn [fst snd]. rewrite app_nil_r. split; reflexivity.
+Qed.
+
+(* ------------------------------------------------------------------------------------------- *)
+(* The code before the fixes violates the property: witnesses computed by vm_compute (replayed on the
+   implementation by corpus/C06/game.1.json and game.2.json). *)
+Definition calm : input := mkin [] [] [Drain 1].
+Definition add_in_handler : input := mkin [AddPlayerReq true] [] [Drain 1].
+
+(* one player, two balls per game; a start-button press while player_turn_will_start of player 1's second turn is
+   being handled (input #16) is accepted because player.ball is still 1: player 2 joins in round 2 and player 1
+   goes on to play ball 3 of a 2-ball game *)
+Definition late_add_cfg : cfg := mkcfg 2 2 1 true.
+Definition late_add_ins : list input := repeat calm 16 ++ [add_in_handler] ++ repeat calm 60.
+
+Definition turn_ball_exceeds (c : cfg) (o : out) : bool :=
+  match o with Ev PTSd _ b _ _ _ => (bpg c <? b)%nat | _ => false end.
+
+Lemma turn_structure_refuted_unfixed_l :
+  exists c ins, (1 <= bpg c)%nat /\ existsb (turn_ball_exceeds c) (trace_unfixed c ins) = true.
+Proof. exists late_add_cfg, late_add_ins. split; [cbn; lia | vm_compute; reflexivity]. Qed.
+
+Lemma late_add_fixed_ok : existsb (turn_ball_exceeds late_add_cfg) (trace late_add_cfg late_add_ins) = false.
+Proof. vm_compute. reflexivity. Qed.
+
+(* end_game while game_starting is handled, before the first player exists: the unfixed coroutine waits for a
+   player that can never be added (request_player_add refuses because the game is ending) *)
+Definition hang_cfg : cfg := mkcfg 3 4 3 true.
+Definition hang_ins : list input := [calm; mkin [EndGame] [] []].
+Definition retry : input := mkin [] [] [AddPlayerReq true; EndGame; EndBall; Drain 1].
+
+Lemma game_hangs_refuted_unfixed_l :
+  exists c ins, forall n,
+    let s := fst (steps_g unfixed c init (ins ++ repeat retry n)) in
+    pc s = WaitPlayer /\ active s = true.
+Proof.
+  exists hang_cfg, hang_ins. intro n. cbv zeta. rewrite steps_app.
+  destruct (steps_g unfixed hang_cfg init hang_ins) as [s1 o1] eqn:E1.
+  assert (H : s1 = mkst WaitPlayer [] 0%nat 0 true true false false false 0%nat false true)
+    by (vm_compute in E1; congruence).
+  subst s1. clear E1. induction n as [|n IH].
+  - cbn. split; reflexivity.
+  - cbn [repeat steps_g]. replace (step_g unfixed hang_cfg _ retry) with
+      (mkst WaitPlayer [] 0%nat 0 true true false false false 0%nat false true,
+       [Idle 0 0%nat]) by (vm_compute; reflexivity).
+    destruct (steps_g unfixed hang_cfg _ (repeat retry n)) as [s2 o2]. cbn [fst snd] in *. exact IH.
+Qed.
+
+Lemma hang_fixed_ends : pc (final hang_cfg hang_ins) = AtEv GSd /\
+                        pc (final hang_cfg (hang_ins ++ repeat calm 4)) = Done.
+Proof. vm_compute. split; reflexivity. Qed.
